@@ -1,7 +1,8 @@
 //! U-W1 (C13 "neighbour checks on insertion and on removal", C14 "recomputation when it returns 2", C09/C05 early
 //! termination): one iteration of the sweep loop of `subdivide`, for an arbitrary popped event and arbitrary answers of
 //! the status structure.  Every callee is replaced by a contract/recorder stub:
-//!   BinaryHeap::pop            -> hands out the scripted event, then None
+//!   (BinaryHeap::pop is the real one: the queue holds exactly the one scripted event, pushed with the real push; a
+//!    one-element heap is popped without any comparison)
 //!   SplaySet::{insert, prev, next, contains, remove} -> recorder + scripted neighbours (any of them may be absent)
 //!   compute_fields             -> recorder
 //!   possible_intersection      -> recorder + arbitrary return code
@@ -30,20 +31,20 @@ const REMOVE: u8 = 5;
 const FIELDS: u8 = 6;
 const INTERSECT: u8 = 7;
 
-static mut LOG: [(u8, *const (), *const ()); 16] = [(0, std::ptr::null(), std::ptr::null()); 16];
+// Events are identified by (contour id, left flag), never by address: the recorders and the script keep NO pointer in a
+// static (CBMC 6.11 / Kani 0.68 gave build-dependent verdicts for harnesses that did, DESIGN 11.8).
+//   the popped event: contour 1; its partner: contour 1 with the opposite flag; the neighbour below: contour 2; the
+//   neighbour above: contour 3; the neighbour below the neighbour below: contour 4 (all three are left events).
+static mut LOG: [(u8, u32, u32); 16] = [(0, 0, 0); 16];
 static mut LOG_N: usize = 0;
 // script
-static mut POP_SLOT: *const () = std::ptr::null(); // leaked Box<Ev>, handed out once
-static mut POPPED: bool = false;
-static mut EV: *const () = std::ptr::null(); // identities (Rc::as_ptr)
-static mut OTHER: *const () = std::ptr::null();
-static mut P1: *const () = std::ptr::null(); // leaked Box<Ev> or null: the neighbour below
-static mut N1: *const () = std::ptr::null(); // the neighbour above
-static mut P0: *const () = std::ptr::null(); // the neighbour below P1
+static mut HAS_P1: bool = false;
+static mut HAS_N1: bool = false;
+static mut HAS_P0: bool = false;
 static mut PI_CODES: [u8; 2] = [0; 2];
 static mut PI_N: usize = 0;
 
-fn log(kind: u8, a: *const (), b: *const ()) {
+fn log(kind: u8, a: u32, b: u32) {
     unsafe {
         assert!(LOG_N < 16, "call log full");
         LOG[LOG_N] = (kind, a, b);
@@ -51,34 +52,27 @@ fn log(kind: u8, a: *const (), b: *const ()) {
     }
 }
 
-/// identity of the event behind a generic `&T` (T = Rc<SweepEvent<f64>> in this harness)
-unsafe fn id_of<T>(t: &T) -> *const () {
-    Rc::as_ptr(&*(t as *const T as *const Ev)) as *const ()
+fn code(e: &Ev) -> u32 {
+    (e.contour_id << 1) | (e.is_left() as u32)
 }
 
-unsafe fn id_of_slot(slot: *const ()) -> *const () {
-    if slot.is_null() {
-        std::ptr::null()
-    } else {
-        Rc::as_ptr(&*(slot as *const Ev)) as *const ()
-    }
+/// code of the event behind a generic `&T` (T = Rc<SweepEvent<f64>> in this harness)
+unsafe fn id_of<T>(t: &T) -> u32 {
+    code(&*(t as *const T as *const Ev))
 }
 
+/// a fresh left event with the given contour id, handed out by reference (leaked, never stored)
 #[cfg(kani)]
-pub fn pop_script<T: Ord, A: std::alloc::Allocator>(_this: &mut BinaryHeap<T, A>) -> Option<T> {
-    unsafe {
-        if POPPED {
-            None
-        } else {
-            POPPED = true;
-            Some(std::ptr::read(POP_SLOT as *const T))
-        }
-    }
+unsafe fn neighbour<'a, T>(id: u32) -> Option<&'a T> {
+    let (e, o) = seg(id, 0.0, true, true);
+    std::mem::forget(o);
+    let r: &'static Ev = Box::leak(Box::new(e));
+    Some(&*(r as *const Ev as *const T))
 }
 
 #[cfg(kani)]
 pub fn set_insert<T, C: Fn(&T, &T) -> Ordering>(_this: &mut crate::splay::SplaySet<T, C>, t: T) -> bool {
-    unsafe { log(INSERT, id_of(&t), std::ptr::null()) };
+    unsafe { log(INSERT, id_of(&t), 0) };
     std::mem::forget(t);
     true
 }
@@ -87,12 +81,13 @@ pub fn set_insert<T, C: Fn(&T, &T) -> Ordering>(_this: &mut crate::splay::SplayS
 pub fn set_prev<'a, T, C: Fn(&T, &T) -> Ordering>(_this: &'a crate::splay::SplaySet<T, C>, t: &T) -> Option<&'a T> {
     unsafe {
         let x = id_of(t);
-        log(PREV, x, std::ptr::null());
-        let ans = if x == EV || x == OTHER { P1 } else if !P1.is_null() && x == id_of_slot(P1) { P0 } else { std::ptr::null() };
-        if ans.is_null() {
-            None
+        log(PREV, x, 0);
+        if x >> 1 == 1 && HAS_P1 {
+            neighbour(2)
+        } else if x >> 1 == 2 && HAS_P0 {
+            neighbour(4)
         } else {
-            Some(&*(ans as *const T))
+            None
         }
     }
 }
@@ -101,25 +96,24 @@ pub fn set_prev<'a, T, C: Fn(&T, &T) -> Ordering>(_this: &'a crate::splay::Splay
 pub fn set_next<'a, T, C: Fn(&T, &T) -> Ordering>(_this: &'a crate::splay::SplaySet<T, C>, t: &T) -> Option<&'a T> {
     unsafe {
         let x = id_of(t);
-        log(NEXT, x, std::ptr::null());
-        let ans = if x == EV || x == OTHER { N1 } else { std::ptr::null() };
-        if ans.is_null() {
-            None
+        log(NEXT, x, 0);
+        if x >> 1 == 1 && HAS_N1 {
+            neighbour(3)
         } else {
-            Some(&*(ans as *const T))
+            None
         }
     }
 }
 
 #[cfg(kani)]
 pub fn set_contains<T, C: Fn(&T, &T) -> Ordering>(_this: &crate::splay::SplaySet<T, C>, t: &T) -> bool {
-    unsafe { log(CONTAINS, id_of(t), std::ptr::null()) };
+    unsafe { log(CONTAINS, id_of(t), 0) };
     true // requires (global invariant of the sweep): the left partner of a popped right event is on the sweep line
 }
 
 #[cfg(kani)]
 pub fn set_remove<T, C: Fn(&T, &T) -> Ordering>(_this: &mut crate::splay::SplaySet<T, C>, t: &T) -> bool {
-    unsafe { log(REMOVE, id_of(t), std::ptr::null()) };
+    unsafe { log(REMOVE, id_of(t), 0) };
     true
 }
 
@@ -128,7 +122,7 @@ pub fn compute_fields_recorder<F: Float>(event: &Rc<SweepEvent<F>>, maybe_prev: 
     unsafe {
         log(FIELDS, id_of(event), match maybe_prev {
             Some(p) => id_of(p),
-            None => std::ptr::null(),
+            None => 0,
         })
     };
 }
@@ -151,11 +145,7 @@ fn seg(id: u32, x: f64, left: bool, subj: bool) -> (Ev, Ev) {
     (e, o)
 }
 
-fn leak(e: &Ev) -> *const () {
-    Box::into_raw(Box::new(e.clone())) as *const ()
-}
-
-fn entry(k: usize) -> (u8, *const (), *const ()) {
+fn entry(k: usize) -> (u8, u32, u32) {
     unsafe { LOG[k] }
 }
 
@@ -165,32 +155,28 @@ pub fn sweep_step_body<S: Src>(s: &mut S) {
     let x = s.f64();
     s.assume(x.is_finite());
     let (ev, other) = seg(1, x, left, s.bool());
-    let (p1, p1o) = seg(2, 0.0, true, s.bool());
-    let (n1, n1o) = seg(3, 0.0, true, s.bool());
-    let (p0, p0o) = seg(4, 0.0, true, s.bool());
     let (has_p1, has_n1, has_p0) = (s.bool(), s.bool(), s.bool());
     let (c0, c1) = (s.u8() % 4, s.u8() % 4);
     let (smax, cmax) = (s.f64(), s.f64());
     s.assume(smax.is_finite() && cmax.is_finite());
     let sbbox = BoundingBox { min: Coord { x: -1.0e9, y: -1.0e9 }, max: Coord { x: smax, y: 1.0e9 } };
     let cbbox = BoundingBox { min: Coord { x: -1.0e9, y: -1.0e9 }, max: Coord { x: cmax, y: 1.0e9 } };
-    let (ev_id, other_id) = (Rc::as_ptr(&ev) as *const (), Rc::as_ptr(&other) as *const ());
-    let (p1_id, n1_id, p0_id) = (Rc::as_ptr(&p1) as *const (), Rc::as_ptr(&n1) as *const (), Rc::as_ptr(&p0) as *const ());
-    let null: *const () = std::ptr::null();
+    let (ev_id, other_id) = (code(&ev), code(&other));
+    let (p1_id, n1_id, p0_id): (u32, u32, u32) = (5, 7, 9); // contour 2, 3, 4; left
+    let null: u32 = 0;
     unsafe {
-        POP_SLOT = leak(&ev);
-        EV = ev_id;
-        OTHER = other_id;
-        P1 = if has_p1 { leak(&p1) } else { null };
-        N1 = if has_n1 { leak(&n1) } else { null };
-        P0 = if has_p0 { leak(&p0) } else { null };
+        HAS_P1 = has_p1;
+        HAS_N1 = has_n1;
+        HAS_P0 = has_p0;
         PI_CODES = [c0, c1];
     }
     vcover!(left && has_p1 && has_n1 && c0 == 2 && c1 == 2, "left-event-both-neighbours-overlap");
     vcover!(!left && has_p1 && has_n1, "right-event-neighbours-become-adjacent");
     vcover!(op == Operation::Intersection && x > smax, "early-termination");
 
+    // the real queue, holding exactly the scripted event (a one-element heap is pushed and popped without comparisons)
     let mut queue: BinaryHeap<Ev> = BinaryHeap::new();
+    queue.push(ev.clone());
     let out = subdivide(&mut queue, &sbbox, &cbbox, op);
 
     // the popped event is appended to the output, always
@@ -238,7 +224,7 @@ pub fn sweep_step_body<S: Src>(s: &mut S) {
         }
         assert!(entry(k) == (REMOVE, other_id, null) && n == k + 1, "C13: the segment leaves the status structure, nothing else happens");
     }
-    std::mem::forget((out, queue, ev, other, p1, p1o, n1, n1o, p0, p0o));
+    std::mem::forget((out, queue, ev, other));
 }
 
 #[cfg(kani)]
@@ -246,7 +232,6 @@ mod proofs {
     use super::*;
 
     #[kani::proof]
-    #[kani::stub(std::collections::BinaryHeap::pop, pop_script)]
     #[kani::stub(crate::splay::SplaySet::insert, set_insert)]
     #[kani::stub(crate::splay::SplaySet::prev, set_prev)]
     #[kani::stub(crate::splay::SplaySet::next, set_next)]
